@@ -123,7 +123,7 @@ func run(c *lib.Ctx) {
 		i := jobs[k]
 		rng := c.CaseRng("hist", i)
 		in := histIn{Seed: rng.U64(), Idx: i, Tier: c.Tier}
-		res := c.Child("hist", in, lib.ChildOpts{Timeout: 5 * time.Minute})
+		res := c.Child("hist", in, lib.ChildOpts{Timeout: 10 * time.Minute})
 		mu.Lock()
 		defer mu.Unlock()
 		c.Count("history_children", 1)
